@@ -258,6 +258,34 @@ def python_level(T, mod, col, stats):
         except BaseException as e:
             _reject(stats, col, "py_form", e)
 
+    # ---- cohdl.Array construction forms (partial default lists, Null, Full, no argument) -----------------
+    if mod.AD_NFORMS:
+        for qn, Q in (("const", None), ("signal", std.Signal), ("variable", std.Variable)):
+            for f in range(mod.AD_NFORMS):
+                try:
+                    x = mod.ad_make(f, Q)
+                    sx = std.to_bits(x)
+                    stats["py_ad_evals"] += 1
+                    if sx.width != w:
+                        col.add("py.ad.width", f"{qn} object in array construction form {f}: to_bits has {sx.width} bits, "
+                                f"count_bits(T) = {w}", form=f, qualifier=qn, expected=w, observed=sx.width)
+                        continue
+                    bits = str(_decay(sx))
+                    for lo, lw, const in mod.AD_EXPECT[f]:
+                        got = bits[len(bits) - lo - lw:len(bits) - lo]
+                        if got != format(const, f"0{lw}b"):
+                            col.add("py.ad.value", f"{qn} object in array construction form {f}: bits [{lo + lw - 1}:{lo}] of "
+                                    f"to_bits are {got}, the default given for that element is {const:0{lw}b}", form=f,
+                                    qualifier=qn)
+                    if T[0] == "carr":
+                        n_it, n_len = len([e for e in x]), len(x)
+                        if n_it != T[2] or n_len != T[2]:
+                            col.add("py.ad.iter", f"{qn} array in construction form {f}: iteration yields {n_it} elements, "
+                                    f"len() = {n_len}, declared {T[2]}", form=f, qualifier=qn, expected=T[2], observed=n_it)
+                    stats["py_ad_done"] += 1
+                except BaseException as e:
+                    _reject(stats, col, "py_ad", e)
+
     # ---- the low bits of a serialised record are its serialised base class (base fields first) --------------
     RT_ = L.resolve(T)
     for bi, (B, n) in enumerate(mod.TOP_BASES):
@@ -412,6 +440,53 @@ def compile_level(T, mod, r, col, stats, qualifiers, do_ct):
                     if outs.get("cbfull") != full:
                         col.add("cb.full", f"emitted logic: to_bits(T(Full)) = {outs.get('cbfull')}", expected=full,
                                 observed=outs.get("cbfull"))
+    if mod.AD_NFORMS:
+        for qn in ("signal", "variable"):
+            for f in range(mod.AD_NFORMS):
+                # width / iteration length: constants in the emitted design, independent of any width-sensitive consumer
+                res = compile_entity(getattr(mod, f"ADW_{qn}_{f}"))
+                if not res.ok:
+                    stats["adw_rejected"] += 1
+                    stats.setdefault("reject_msgs", {}).setdefault(f"adw.{qn}: {res.error[:160]}", col.canon)
+                    continue        # the constructor itself is rejected: nothing to serialise
+                d = compile_design(res.vhdl)
+                if d.findings or d.multi_driven:
+                    col.add(f"adw.{qn}.static", f"emitted VHDL has static findings {d.findings[:2]} {d.multi_driven[:2]}")
+                else:
+                    sim = d.sim()
+                    sim.set("inp", 0)
+                    outs = sim.outputs()
+                    stats["adw_compiled"] += 1
+                    stats["adw_evals"] += 1
+                    if outs.get("wd") != w:
+                        col.add(f"adw.{qn}.width", f"in context: to_bits of the {qn} object in array construction form {f} "
+                                f"has {outs.get('wd')} bits, count_bits(T) = {w}", form=f, expected=w, observed=outs.get("wd"))
+                    if T[0] == "carr" and (outs.get("n") != T[2] or outs.get("m") != T[2]):
+                        col.add(f"adw.{qn}.iter", f"in context: iterating the {qn} array in construction form {f} yields "
+                                f"{outs.get('n')} elements, len() = {outs.get('m')}, declared {T[2]}", form=f,
+                                expected=T[2], observed=outs.get("n"))
+                res = compile_entity(getattr(mod, f"AD_{qn}_{f}"))
+                if not res.ok:
+                    stats["ad_rejected"] += 1
+                    stats.setdefault("reject_msgs", {}).setdefault(f"ad.{qn}: {res.error[:160]}", col.canon)
+                    continue
+                d = compile_design(res.vhdl)
+                if d.findings or d.multi_driven:
+                    col.add(f"ad.{qn}.static", f"emitted VHDL has static findings {d.findings[:2]} {d.multi_driven[:2]}")
+                    continue
+                sim = d.sim()
+                stats["ad_compiled"] += 1
+                for b in range(1 << w):
+                    sim.set("inp", b)
+                    got = sim.get("o")
+                    exp = b
+                    for lo, lw, const in mod.AD_EXPECT[f]:
+                        exp = L.bf_write_expected(exp, lo, lw, const)
+                    stats["ad_evals"] += 1
+                    if got != exp:
+                        col.add(f"ad.{qn}.value", f"emitted logic: {qn} object in array construction form {f} (defaulted "
+                                f"elements keep their default, the others are driven from {b:0{w}b}): to_bits = {got}, "
+                                f"expected {exp:0{w}b}", pattern=b, form=f, expected=exp, observed=got)
     if do_ct:
         pats = ct_patterns_for(w)
         res = compile_entity(mod.CT)
@@ -657,6 +732,11 @@ def main(run: Run):
         run.tool_error(f"vacuous: run-time constructor wrapper compiled for {c.get('cb_compiled', 0)} of {n_rec} records")
     if n_rec and c.get("py_forms_done", 0) < n_rec:
         run.tool_error(f"vacuous: constructor forms exercised {c.get('py_forms_done', 0)} times for {n_rec} records")
+    from ..gen.c17_render import ad_eligible
+    n_ad = sum(1 for _, t in fam if ad_eligible(t))
+    if n_ad and (c.get("py_ad_done", 0) < 3 * n_ad or c.get("ad_compiled", 0) < 2 * n_ad) and not run.violations:
+        run.tool_error(f"vacuous: array construction forms: {c.get('py_ad_done', 0)} Python-level / "
+                       f"{c.get('ad_compiled', 0)} compiled form instances for {n_ad} compositions with cohdl.Array")
     if c.get("py_ctor_mismatch", 0):
         run.note(f"constructors that did not store the given value (outside C17): {c['py_ctor_mismatch']}")
     run.assume("vsim (own VHDL-2008 subset simulator) implements IEEE 1076/numeric_std semantics")
@@ -681,6 +761,10 @@ def main(run: Run):
              "compiled wrapper fed from the documented slices"
              + ("" if run.thorough else " (nesting-2 record strata: the 4 most different forms, value qualifier, no "
                                         "constants wrapper)") +
+             "; core cohdl.Array (alone, nested, in records): every construction form (default list with 0..n elements, "
+             "no argument, Null, Full) as constant / Signal / Variable: to_bits width == count_bits, iteration length == n, "
+             "defaulted elements keep their default and driven elements their slice for every input (per-form compiled "
+             "wrappers)"
              "; inherited records: low bits == serialised base class; templated records (incl. inheritance between "
              "template declarations, int and type template arguments) == the identical non-templated record",
         evaluations=evals,
